@@ -57,7 +57,7 @@ Definition iter_nth {A} (n : nat) (it : list A) : option (A * list A) :=
   end.
 
 (* pk_values[i] = Some(v) *)
-Fixpoint set_nth {A} (i : nat) (x : A) (l : list A) : list A :=
+Fixpoint set_nth {A} (i : nat) (x : A) (l : list A) {struct l} : list A :=
   match l, i with
   | [], _ => []
   | _ :: r, O => x :: r
@@ -211,10 +211,78 @@ Definition spec_serialized_key (components : list bytes) : bytes :=
   | _ => concat (map spec_component components)
   end.
 
-(* the key components in partition-key order: component j is the value bound to the marker
-   whose position the server announced as pk index j *)
-Definition spec_components (wire : list N) (values : list bytes) : list bytes :=
-  map (fun i => nth (N.to_nat i) values []) wire.
+(* the bytes bound to a marker (a key column is never null or unset) *)
+Definition bound_bytes (v : raw_value) : bytes :=
+  match v with RValue b => b | _ => [] end.
 
-Definition spec_token (p : partitioner) (wire : list N) (values : list bytes) : Z :=
+(* the key components in partition-key order: component j is the value bound to the marker
+   whose position the server announced as the j-th pk index *)
+Definition spec_components (wire : list N) (values : list raw_value) : list bytes :=
+  map (fun i => bound_bytes (nth (N.to_nat i) values RNull)) wire.
+
+Definition spec_token (p : partitioner) (wire : list N) (values : list raw_value) : Z :=
   token_spec p (spec_serialized_key (spec_components wire values)).
+
+(* ---- the property as executable predicates (used by the correspondence driver when the
+        implementation and the model differ, and proved of the model in Props/C03.v) ---------- *)
+
+Fixpoint nodupb (l : list N) : bool :=
+  match l with
+  | [] => true
+  | x :: r => negb (existsb (N.eqb x) r) && nodupb r
+  end.
+
+Definition is_value (v : raw_value) : bool :=
+  match v with RValue _ => true | _ => false end.
+
+(* the quantifier of the property: distinct pk indexes, each naming an existing marker that is
+   bound to a value; at most 65535 bound values (SerializedValues counts them in a u16) *)
+Definition key_okb (ncols : nat) (wire : list N) (values : list raw_value) : bool :=
+  nodupb wire &&
+  forallb (fun i => (N.to_nat i <? length values)%nat && (N.to_nat i <? ncols)%nat &&
+                    is_value (nth (N.to_nat i) values RNull)) wire &&
+  (N.of_nat (length values) <=? 65535).
+
+Definition fitsb (c : bytes) : bool := N.of_nat (length c) <=? 65535.
+
+(* does a key have a serialization: a single component always, a composite one when every
+   component fits the 2-byte length *)
+Definition serializableb (comps : list bytes) : bool :=
+  (length comps =? 1)%nat || forallb fitsb comps.
+
+(* the property evaluated on an observed result of calculate_token for (wire, values) *)
+Definition prop_token_ok (p : partitioner) (ncols : nat) (wire : list N)
+    (values : list raw_value) (obs : result c03_error (option Z)) : bool :=
+  if negb (key_okb ncols wire values) then true
+  else
+    match wire with
+    | [] => match obs with Ok None => true | _ => false end
+    | _ =>
+        if serializableb (spec_components wire values) then
+          match obs with
+          | Ok (Some t) => (t =? spec_token p wire values)%Z
+          | _ => false
+          end
+        else
+          match obs with
+          | Err (ValueTooLong n) => 65535 <? n
+          | _ => false
+          end
+    end.
+
+(* the same for calculate_token_for_partition_key on already ordered key values *)
+Definition prop_pk_token_ok (p : partitioner) (values : list raw_value)
+    (obs : result c03_error Z) : bool :=
+  if negb (forallb is_value values) then true
+  else
+    let comps := map bound_bytes values in
+    if serializableb comps || (length comps =? 0)%nat then
+      match obs with
+      | Ok t => (t =? token_spec p (spec_serialized_key comps))%Z
+      | _ => false
+      end
+    else
+      match obs with
+      | Err (ValueTooLong n) => 65535 <? n
+      | _ => false
+      end.
